@@ -134,15 +134,19 @@ def _is_groupby(n, acc):
     k = norm(t.left)
     create, extend = (n.body, n.orelse) if isinstance(t.ops[0], ast.NotIn) else (n.orelse, n.body)
 
+    from .util import core
+    mentions = lambda s_: any(isinstance(x, ast.Name) and x.id == a.split(".")[0]
+                              for x in ast.walk(s_))
+
     def creates(block):
-        st = [x for x in block if not isinstance(x, ast.Pass)]
+        st = core(block, mentions)
         return len(st) == 1 and isinstance(st[0], ast.Assign) and len(st[0].targets) == 1 \
             and isinstance(st[0].targets[0], ast.Subscript) \
             and dotted(st[0].targets[0].value) == a and norm(st[0].targets[0].slice) == k \
             and isinstance(st[0].value, (ast.List, ast.Set, ast.Dict, ast.Call))
 
     def extends(block):
-        st = [x for x in block if not isinstance(x, ast.Pass)]
+        st = core(block, mentions)
         if not st:
             return True
         return len(st) == 1 and isinstance(st[0], ast.Expr) and isinstance(st[0].value, ast.Call) \
